@@ -252,6 +252,17 @@ def run(chk):
                            name_pool=['w', 'inner', 'h'] if i % 12 == 0 else None, input_shaped=0.35 if i % 4 == 1 else 0.0)
     streams = rng.choice([['params'], ['params', 'dropout'], ['params', 'dropout', 'noise']])
     cases.append({'prog': prog, 'x': [rng.randint(-3, 3) for _ in range(n)], 'child_x': [rng.randint(-3, 3) for _ in range(n)], 'streams': streams, 'pick': rng.randint(0, 20)})
+  # one module instance with an input-shaped parameter (a Dense-like kernel) called twice with inputs of different widths, directly and one
+  # level deeper: the second call finds a wrongly shaped parameter -- during init as well as during apply
+  for depth in (1, 2):
+    for n in (2, 3):
+      leaf = ([['param', 1, 'w', 0, rng.randint(1, 3)]], ['mul', ['loc', 1], ['in']])
+      if depth == 1:
+        classes = {'0': ([['child', 1, 1, 'sub'], ['call', 1, 1, ['in']], ['call', 2, 1, ['sum', ['in']]]], ['add', ['loc', 1], ['loc', 2]]), '1': leaf}
+      else:
+        classes = {'0': ([['child', 1, 1, 'blk'], ['call', 1, 1, ['in']], ['call', 2, 1, ['sum', ['in']]]], ['add', ['loc', 1], ['loc', 2]]),
+                   '1': ([['child', 1, 2, None], ['call', 1, 1, ['in']]], ['loc', 1]), '2': leaf}
+      cases.append({'prog': {'classes': classes, 'top': 0, 'n': n}, 'x': [rng.randint(1, 3) for _ in range(n)], 'child_x': [1] * n, 'streams': ['params'], 'pick': 0})
   W = 14
   results = common.run_impl_parallel('impl_c02.py', [{'cases': cases[i::W]} for i in range(W)], workers=W, timeout=3000)
   obs = [None] * len(cases)
